@@ -19,7 +19,10 @@ def base_cfg(todo_p, todo_q, todo_s, msg):
               "q": "%todo()%" if todo_q else "q-%p%",
               "c": "%myfn(1)%"}
     # a todo service stays a placeholder whatever else it declares (a draft constructor, a value, type/getter/tags)
-    forms = [{"todo": True}, {"todo": True, "constructor": "fx.NewA", "arguments": ["draft"]}, {"todo": True, "value": "fx.GlobalVal"},
+    # … including references to parameters and services nobody declares, and to a dependant of its own (no cycle: a
+    # placeholder has no dependencies)
+    forms = [{"todo": True}, {"todo": True, "constructor": "fx.NewA", "arguments": ["draft", "%undeclared%", "@nosuch", "@u", "!tagged t"], "fields": {"F1": "@u"},
+                              "calls": [["Call1", ["%nope%"]]]}, {"todo": True, "value": "fx.GlobalVal"},
              {"todo": True, "type": "*fx.Obj", "getter": "GetS", "tags": ["t"], "constructor": "fx.NewA"}]
     svcs = {"s": forms[2 * todo_p + todo_q] if todo_s else {"constructor": "fx.NewA", "arguments": ["s"]},
             "u": {"constructor": "fx.NewB", "arguments": ["@s", "%q%"]},
@@ -111,17 +114,75 @@ def run(ctx, maxlen=None):
                 elif "err" in r:
                     violations.append({"sig": "override-not-visible", "what": "Get(s) after OverrideService still fails: %r" % (r,), "files": files, "history": oa})
         nontriv.add(json.dumps(oa) + files[0][:0] + str(sorted(k for k, v in cfg["parameters"].items() if "todo" in str(v))) + str(bool(cfg["services"]["s"].get("todo"))))
-    return {"evaluations": dist["histories"], "distinct_nontrivial": len(nontriv), "programs": len(cfgs),
+    env_histories(ctx, violations, corr_fail, dist)
+    return {"evaluations": dist["histories"] + dist.get("env_histories", 0), "distinct_nontrivial": len(nontriv), "programs": len(cfgs) + 1,
             "rule": "8 configurations (every subset of {p, q, s} marked todo) x histories over {GetParam p/q/c, Get s/u/n, OverrideParam p/q, OverrideService s} up to length %d (%s); fresh container per history; distinct = distinct (todo subset, history)" % (maxlen, "sampled" if ctx.quick else "exhaustive"),
             "samples": [{"history": o[0][1][1:-1], "todo": [k for k, v in o[0][0]["parameters"].items() if "todo" in str(v)]} for o in out[:3]],
             "distribution": dist, "violations": violations, "corr_fail": corr_fail, "exhaustive": not ctx.quick}
 
 
-def run_grouped(ctx, cfgs, _unused, items):
+ENV_CFG = {"meta": {"pkg": "gen", "imports": {"fx": gen.FX}},
+           "parameters": {"e": '%env("VERIF_LATE")%', "ed": '%env("VERIF_LATE", "dflt")%', "ei": '%envInt("VERIF_LATE", 3)%', "mix": 'a-%env("VERIF_LATE", "d")%'},
+           "services": {"s": {"constructor": "fx.NewA", "arguments": ["%ed%"]}}}
+ENV_OPS = [["setenv", "VERIF_LATE", "first"], ["setenv", "VERIF_LATE", "17"], ["unsetenv", "VERIF_LATE"],
+           ["param", "e"], ["param", "ed"], ["param", "ei"], ["param", "mix"], ["get", "s"]]
+
+
+def env_histories(ctx, violations, corr_fail, dist):
+    """parameters are evaluated on first use, not when the container is made: the environment a %env()% parameter sees is the one
+    at its first evaluation, and from then on the cached value"""
+    L = 3 if ctx.quick else 4
+    hist = [list(h) for h in itertools.product(range(len(ENV_OPS)), repeat=L)]
+    if ctx.quick:
+        ctx.rng.shuffle(hist)
+        hist = hist[:150]
+    items = [(ENV_CFG, [["unsetenv", "VERIF_LATE"]] + [ENV_OPS[i] for i in h] + [["unsetenv", "VERIF_LATE"]]) for h in hist]
+    out, err, _ = run_grouped(ctx, [ENV_CFG], None, items, tag="lb_c15e")
+    if err:
+        violations.append({"sig": "probe-build", "what": err}); return
+    for (cfg, ops), impl, model, files in out:
+        dist["env_histories"] = dist.get("env_histories", 0) + 1
+        if impl is None:
+            violations.append({"sig": "probe-crash", "what": "no result", "files": files}); continue
+        if model is not None:
+            for x in behave.compare_script(impl, model)[:1]:
+                if len(corr_fail) < 10:
+                    corr_fail.append({"op": "rt:env-history", "files": files, "history": ops, "at": x[0], "impl": x[1], "model": x[2]})
+        env, cache = None, {}
+        for o, r in zip(ops, impl):
+            if o[0] == "setenv":
+                env = o[2]
+            elif o[0] == "unsetenv":
+                env = None
+            elif o[0] == "get":
+                # s is made from %ed%: its first construction is a first use of ed
+                cache.setdefault("ed", ("ok", "dflt" if env is None else env))
+            elif o[0] == "param":
+                n = o[1]
+                seen = n in cache
+                if n in cache:
+                    want = cache[n]
+                else:
+                    if n == "e":
+                        want = ("err",) if env is None else ("ok", env)
+                    elif n == "ed":
+                        want = ("ok", "dflt" if env is None else env)
+                    elif n == "mix":
+                        want = ("ok", "a-" + ("d" if env is None else env))
+                    else:
+                        want = ("ok", "3") if env is None else (("ok", env) if env.isdigit() else ("err",))
+                    if want[0] == "ok":
+                        cache[n] = want
+                got = ("ok", str(r["ok"].get("v"))) if "ok" in r else ("err",)
+                if got != want:
+                    violations.append({"sig": "param-not-lazy-or-not-once", "what": "GetParam(%s) with VERIF_LATE=%r at this point%s returns %r; evaluated on first use and cached from then on it is %r" % (n, env, " (evaluated before: %r)" % (cache.get(n),) if seen else "", r, want), "files": files, "history": ops})
+
+
+def run_grouped(ctx, cfgs, _unused, items, tag="lb_c15"):
     """generate one package per configuration, run every (cfg, ops) script against it"""
     import os, shutil
     from vlib import levelb
-    root = os.path.join(ctx.scratch(), "lb_c15")
+    root = os.path.join(ctx.scratch(), tag)
     shutil.rmtree(root, ignore_errors=True)
     mod = levelb.Module(root)
     names, inputs = {}, {}
